@@ -174,7 +174,8 @@ _ONE = 1.0
 _HEADER = '''"""GENERATED by dst/c05.py -- simulator-owned mapper subclasses for C05."""
 from immutabledict import immutabledict
 from pymbolic.mapper import (CachedIdentityMapper, IdentityMapper, CachedCombineMapper,
-    CombineMapper, CachedCollector, Collector, CachedWalkMapper, WalkMapper, Mapper)
+    CombineMapper, CachedCollector, Collector, CachedWalkMapper, WalkMapper, Mapper,
+    CachedMapper)
 from pymbolic.primitives import Sum, Variable
 from c05_mappers_b import BUnitMixin0, BUnitMixinA, BUnitMixinK, BUnitMixinAK
 
@@ -308,13 +309,16 @@ class P_walkset(WalkMapper):
     def __init__(self):
         self.nodes = []
         self.done = []
+        self.events = []
 
     def visit(self, expr, *args, **kwargs):
         self.nodes.append(expr)
+        self.events.append(("v", expr))
         return True
 
     def post_visit(self, expr, *args, **kwargs):
         self.done.append(expr)
+        self.events.append(("p", expr))
 
 
 class NoCseCacheMixinF:
@@ -336,6 +340,13 @@ class C_feval_0(CachedFloatEvaluationMapper):
 
 class P_feval(NoCseCacheMixinF, FloatEvaluationMapper):
     pass
+
+
+class C_depcomp_0(CachedMapper, PrefixMixin0, DependencyMapper):
+    """memoization composed by hand, the wrapped mapper's constructor first"""
+    def __init__(self, **flags):
+        DependencyMapper.__init__(self, **flags)
+        CachedMapper.__init__(self)
 
 
 class C_dep_0(PrefixMixin0, CachedDependencyMapper):
@@ -420,12 +431,12 @@ ARITH = ["Variable", "Sum", "Product", "Quotient", "FloorDiv", "Remainder", "Pow
          "Comparison", "If", "Min", "Max", "CommonSubexpression", "LogicalAnd", "LogicalNot"]
 
 FAMS_BROAD = ["ident", "subst", "collect", "walk", "dep", "count", "combine", "plainopt",
-              "entry_subst", "hook", "twomod", "state"]
-FAMS_ARITH = ["eval", "feval", "csemix_eval", "flop", "ident", "combine", "dep", "count", "collect",
+              "entry_subst", "hook", "twomod", "state", "depcomp", "entry_count"]
+FAMS_ARITH = ["entry_count", "depcomp", "eval", "feval", "csemix_eval", "flop", "ident", "combine", "dep", "count", "collect",
               "csemix_dep", "csemix_diff", "entry_subst", "entry_eval"]
 REWRITABLE = {"ident", "combine", "collect", "walk", "subst", "count", "flop", "plainopt",
               "twomod", "state"}
-EXTRAS_FAMS = {"ident", "twomod", "combine", "collect", "walk", "dep", "plainopt", "csemix_dep", "hook",
+EXTRAS_FAMS = {"depcomp", "ident", "twomod", "combine", "collect", "walk", "dep", "plainopt", "csemix_dep", "hook",
                "entry_subst", "entry_eval"}
 
 
@@ -489,7 +500,7 @@ def _gen_extras(r, fam, variant):
                                       ["t", [["s", "zz"], ["i", r.choice([0, 1])]]]]))
         elif fam == "combine":
             args.append(["i", r.choice([1, 2, 5])])
-        elif fam in ("collect", "dep", "csemix_dep"):
+        elif fam in ("collect", "dep", "csemix_dep", "depcomp"):
             args.append(["s", r.choice(["x", "y", ""])])
         elif fam == "walk":
             args.append(["s", r.choice(["nocall", "all"])])
@@ -519,7 +530,8 @@ def generate(seed, tier):
     if mode == "nv":
         classes = ["Variable", "Sum", "Product", "Quotient", "Power", "Call",
                    "CommonSubexpression"]
-        fams = ["ident", "eval", "csemix_eval", "count", "dep", "subst", "flop", "csemix_diff"]
+        fams = ["ident", "eval", "csemix_eval", "count", "dep", "subst", "flop", "csemix_diff",
+                "entry_count"]
         fault_mode = "none"
         profile = "arith"
 
@@ -606,6 +618,24 @@ def generate(seed, tier):
             name = f"e{len(pool_names)}"
             ops.append(["def", name, retype(src)])
             pool_names.append(name)
+        # ... and twins with only some of the constants re-typed: 4 + 4 next to 4 + 4.0
+        def retype_some(t):
+            if t[0] in ("i", "f", "b", "np"):
+                return retype(t) if r.random() < 0.5 else t
+            if t[0] == "n":
+                return ["n", t[1], [retype_some(x) for x in t[2]]]
+            if t[0] == "t":
+                return ["t", [retype_some(x) for x in t[1]]]
+            return t
+        for k in range(min(2, npool)):
+            name = f"e{len(pool_names)}"
+            ops.append(["def", name, retype_some(ops[k][2])])
+            pool_names.append(name)
+        four = ["i", 4]
+        for t in (["n", "Sum", [["t", [four, four]]]], ["n", "Sum", [["t", [four, ["f", "4.0"]]]]]):
+            name = f"e{len(pool_names)}"
+            ops.append(["def", name, t])
+            pool_names.append(name)
 
     wide_name = None
     if mode == "strict" and fault_mode == "none" and r.random() < 0.04:
@@ -652,7 +682,7 @@ def generate(seed, tier):
                 v = r.choice(["x", "y", "z", "xa"])
                 cfg["ctx_kind"] = ck
                 cfg["late"] = {"var": v, "value": cfg["vars"].pop(v), "at": r.randint(1, 6)}
-        elif fam in ("dep", "csemix_dep"):
+        elif fam in ("dep", "csemix_dep", "depcomp"):
             cfg["flags"] = {
                 "include_subscripts": r.random() < 0.5, "include_lookups": r.random() < 0.5,
                 "include_calls": r.choice([True, False, "descend_args"]),
@@ -985,6 +1015,28 @@ def execute(scenario, open_sigs):
                                                    evaluate)
             from pymbolic.mapper.substitutor import (CachedSubstitutionMapper,
                                                      SubstitutionMapper, substitute)
+            if self.fam == "entry_count":
+                if self.cached:
+                    from pymbolic.mapper.analysis import get_num_nodes
+                    return get_num_nodes(expr)
+                # the documented meaning: nodes that occur repeatedly are counted once, and a
+                # node is (type, value) -- counted here with a plain walk and a dict
+                # (sub-trees below a node that was counted before are not looked at again, as
+                # documented for the key (type, value))
+                w = M.P_walkset()
+                w(expr)
+                seen, count, skip_depth = set(), 0, 0
+                for what, x in w.events:
+                    if skip_depth:
+                        skip_depth += 1 if what == "v" else -1
+                        continue
+                    if what == "v":
+                        if (type(x), x) in seen:
+                            skip_depth = 1
+                    else:
+                        seen.add((type(x), x))
+                        count += 1
+                return count
             m = dict(self.alts[k % len(self.alts)])
             if self.fam == "entry_subst":
                 return substitute(expr, m, mapper_cls=CachedSubstitutionMapper
@@ -1020,7 +1072,7 @@ def execute(scenario, open_sigs):
                 st.sim, st.fake_log, st.fakes = sim, log, fk
                 st.live_ctx = ctx
             return cls(ctx)
-        if fam in ("dep", "csemix_dep"):
+        if fam in ("dep", "csemix_dep", "depcomp"):
             return cls(**c.get("flags", {}))
         if fam == "csemix_diff":
             return cls(p.Variable(c.get("var", "x")))
@@ -1059,7 +1111,7 @@ def execute(scenario, open_sigs):
             plain = M.P_eval_nc
         elif fam == "feval":
             plain = M.P_feval
-        elif fam == "dep":
+        elif fam in ("dep", "depcomp"):
             plain = M.P_dep_nc
         else:
             plain = getattr(M, f"P_{fam}")
@@ -1089,7 +1141,7 @@ def execute(scenario, open_sigs):
         st.inline_rec_no_cache = bool(bits and bits[2] == "1" and bits[3] == "0"
                                       and ins["family"] != "plainopt")
         obs.watch(st.obj, st.label)
-        if mode == "nv":
+        if mode == "nv" and not ins["family"].startswith("entry"):
             memo_cls2, plain_cls = classes_for(ins)
             csemix = ins["family"].startswith("csemix")
             st.model = construct(
